@@ -17,20 +17,21 @@ import (
 
 // Program is one transaction-like execution on a prepared state.
 type Program struct {
-	Name      string
-	Contracts map[common.Address][]byte
-	Balances  map[common.Address]*big.Int
-	Storage   map[common.Address]map[common.Hash]common.Hash
-	Entry     string // call | callcode | delegatecall | staticcall | create | create2
-	To        common.Address
-	Input     []byte // calldata or init code
-	Value     *big.Int
-	Gas       uint64
-	WarmAddrs []common.Address
-	WarmSlots []common.Hash // of To
-	Limit     int           // events to record when more than the recorder's default are needed
-	Forks     []string      // run on exactly these forks (those of them the plan contains)
-	AllForks  bool          // run on every fork of the plan (fork-dependent gas rules), not on one in rotation
+	Name       string
+	Contracts  map[common.Address][]byte
+	Balances   map[common.Address]*big.Int
+	Storage    map[common.Address]map[common.Hash]common.Hash
+	Entry      string // call | callcode | delegatecall | staticcall | create | create2
+	To         common.Address
+	Input      []byte // calldata or init code
+	Value      *big.Int
+	Gas        uint64
+	WarmAddrs  []common.Address
+	WarmSlots  []common.Hash // of To
+	ResultOnly bool          // run without the recording tracer only: the result pair is all that is compared (long programs, many of them)
+	Limit      int           // events to record when more than the recorder's default are needed
+	Forks      []string      // run on exactly these forks (those of them the plan contains)
+	AllForks   bool          // run on every fork of the plan (fork-dependent gas rules), not on one in rotation
 }
 
 var (
@@ -672,6 +673,40 @@ func Matrix() []*Program {
 			}
 		}
 	}
+	// stack bounds of every opcode on every fork's table: one item too few must underflow; 1024 items before an opcode that leaves
+	// more than it takes must overflow, 1023 must not (only the result is compared: 1024 pushes each)
+	for b := 0; b < 256; b++ {
+		oi, ok := StdOps[byte(b)]
+		if !ok || b == 0x5c || b == 0x5d || b == 0x5e {
+			continue
+		}
+		imm := 0
+		if b >= 0x60 && b <= 0x7f {
+			imm = b - 0x5f
+		}
+		emit := func(name string, height int) {
+			c := &code{}
+			for i := 0; i < height; i++ {
+				c.pushN(1)
+			}
+			c.op(byte(b))
+			c.b = append(c.b, make([]byte, imm)...)
+			if oi.Pushes > 0 {
+				c.op(0x50)
+			}
+			c.op(0x00)
+			mk(name, c.b)
+			p := out[len(out)-1]
+			p.Gas, p.AllForks, p.ResultOnly = 400_000, true, true
+		}
+		if oi.Pops > 0 {
+			emit("matrix-stack-under", oi.Pops-1)
+		}
+		if oi.Pushes > oi.Pops {
+			emit("matrix-stack-full", 1024)
+			emit("matrix-stack-full-1", 1023)
+		}
+	}
 	// CREATE / CREATE2 from memory of every size class around the init-code limit (EIP-3860: 49152 bytes, from Shanghai on only),
 	// on every fork; the address word, the gas left after it and the return-data size are observable
 	for _, op := range []byte{0xf0, 0xf5} {
@@ -1041,6 +1076,37 @@ func nestPrograms() []*Program {
 		p := base("nest:reenter-"+end+"-sload", c.b)
 		p.Input = []byte{0}
 		p.Storage[CA] = map[common.Hash]common.Hash{common.BigToHash(big.NewInt(1)): common.BigToHash(big.NewInt(3))}
+		out = append(out, p)
+	}
+	// a static frame stays static after a nested static call has returned: CA -static-> CB; CB -static-> CC (returns), then CB writes
+	for _, w := range []string{"sstore", "log", "callvalue", "create", "selfdestruct", "call-writer"} {
+		outer := &code{}
+		outer.pushN(32).pushN(0x40).pushN(0).pushN(0).pushAddr(CB).op(0x5a, 0xfa)
+		outer.pushN(0).op(0x52).pushN(0x60).pushN(0).op(0xf3)
+		mid := &code{}
+		mid.pushN(0).pushN(0).pushN(0).pushN(0).pushAddr(CC).op(0x5a, 0xfa, 0x50)
+		switch w {
+		case "sstore":
+			mid.pushN(1).pushN(0).op(0x55)
+		case "log":
+			mid.pushN(0).pushN(0).op(0xa0)
+		case "callvalue":
+			mid.pushN(0).pushN(0).pushN(0).pushN(0).pushN(1).pushAddr(NX).op(0x5a, 0xf1, 0x50)
+		case "create":
+			mid.pushN(0).pushN(0).pushN(0).op(0xf0, 0x50)
+		case "selfdestruct":
+			mid.pushAddr(NX).op(0xff)
+		case "call-writer": // a plain CALL below the static frame inherits the protection
+			mid.pushN(0).pushN(0).pushN(0).pushN(0).pushN(0).pushAddr(common.HexToAddress("0x00000000000000000000000000000000000f0007")).op(0x5a, 0xf1)
+			mid.pushN(0x20).op(0x52)
+		}
+		mid.pushN(7).pushN(0).op(0x52).pushN(0x40).pushN(0).op(0xf3)
+		p := base("nest:static-after-static-"+w, outer.b)
+		p.Contracts[CB] = mid.b
+		p.Contracts[CC] = []byte{0x00}
+		p.Contracts[common.HexToAddress("0x00000000000000000000000000000000000f0007")] = []byte{0x60, 0x01, 0x60, 0x00, 0x55, 0x00}
+		p.Balances[CB] = big.NewInt(5)
+		p.Forks = []string{"Byzantium", "Berlin", "Shanghai"}
 		out = append(out, p)
 	}
 	// self-recursion with all the gas: before EIP-150 the 1024-frame depth limit is reached (the 1025th attempt is refused up front),
